@@ -13,6 +13,7 @@ TS = [0, 1, 1000, 0xFFFFFE, 0xFFFFFF, 0x1000000, 0x7FFFFFFF, 0x80000000, 0xFFFFF
 
 
 def cfg(rng, canon):
+    """returns (cfg text, client chunk size, server chunk size); the text carries the marker `tw` when a window is below 64"""
     cchunk = rng.choice(CHUNKS) if rng.chance(1, 2) else rng.range(1, 10000)
     schunk = rng.choice(CHUNKS) if rng.chance(1, 2) else rng.range(1, 10000)
     if not canon and rng.chance(1, 10):
@@ -27,10 +28,10 @@ def cfg(rng, canon):
         swin = max(swin, 4096)
     tc = "-" if rng.chance(1, 2) else "u" + hexs(b"rtmp://host/app")
     clock = rng.choice(TS) if rng.chance(1, 3) else rng.below(100000)
-    return "cfg %s %d %d %d %s %s %d %d %d %d %d%s" % (
+    return "cfg %s %d %d %d %s %s %d %d %d %d %d%s%s" % (
         hexs(rng.choice([b"WIN 23,0,0,207", b"x"])), rng.choice([0, 1000, 4294967295]), cwin, cchunk, tc,
         hexs(rng.choice([b"FMS/3,0,1,123", b"s"])), schunk, rng.choice([0, 2500000, 4294967295]), swin, rng.below(2), clock,
-        " canon" if canon else ""), cchunk, schunk
+        " canon" if canon else "", " tw" if min(cwin, swin) < 64 else ""), cchunk, schunk
 
 
 def sizes(rng, small):
@@ -80,14 +81,18 @@ def canonical(rng, tier):
     c, cchunk, schunk = cfg(rng, True)
     small = rng.chance(1, 2) or min(cchunk, schunk) < 1000   # small scenarios may be delivered byte by byte
     budget = 1500 if small else 80000
-    ops = [c, "connect " + hexs(rng.choice(APPS)), "flush " + sizes(rng, True)]
+    # a window below the size of an acknowledgement makes the peer answer every delivered byte with a 6..16 byte acknowledgement;
+    # with byte-wise flushes that exceeds the flush loop's iteration cap (a harness limit, not a property of the sessions)
+    tiny_window = c.endswith(" tw")
+    fine = not tiny_window            # fine-grained (down to byte-wise) delivery schedules
+    ops = [c, "connect " + hexs(rng.choice(APPS)), "flush " + sizes(rng, fine)]
     publishing = rng.chance(1, 2)
     key = hexs(rng.choice(KEYS))
     if publishing:
         ops.append("publish %s %s" % (key, rng.choice(["live", "record", "append"])))
     else:
         ops.append("play " + key)
-    ops.append("flush " + sizes(rng, True))
+    ops.append("flush " + sizes(rng, fine))
     prev = rng.choice(TS)
     total = 0
     for _ in range(rng.range(0, 10)):
@@ -104,10 +109,10 @@ def canonical(rng, tier):
             ops.append("d %s %d" % (rng.choice(["c2s", "s2c"]), rng.choice([1, 5, 100, 5000]) if small else rng.choice([100, 5000, 100000])))
         if rng.chance(1, 8):
             ops.append("clk %d" % rng.below(1 << 32))
-    ops.append("flush " + sizes(rng, small))
+    ops.append("flush " + sizes(rng, small and fine))
     if rng.chance(4, 5):
         ops.append("stoppub" if publishing else "stopplay")
-        ops.append("flush " + sizes(rng, small))
+        ops.append("flush " + sizes(rng, small and fine))
     return "interop " + " | ".join(ops)
 
 
